@@ -1,4 +1,4 @@
-import sys, threading, time, collections
+import sys, os, threading, time, collections
 from harness.props import base
 from harness import gens, common, preds, writeset
 import parso
@@ -110,7 +110,9 @@ def do_task(task):
     if kind == 'parse':
         return preds.sig_tree(m)
     if kind == 'errors':
-        return (preds.sig_tree(m), [(i.code, i.message, i.start_pos, i.end_pos) for i in g.iter_errors(m)])
+        # the listing first: it is the call under test (a walk that fails on deep nesting must still leave everything as it was)
+        issues = [(i.code, i.message, i.start_pos, i.end_pos) for i in g.iter_errors(m)]
+        return (preds.sig_tree(m), issues)
     raise ValueError(kind)
 
 
@@ -166,15 +168,27 @@ def fingerprint():
             out['%s.%s' % (cls.__name__, attr)] = tuple(sorted((str(k), tuple(c.__name__ for c in v)) for k, v in d.items()))
     import parso.python.tree as pt, parso.tree as bt, parso.python.parser as pp
     out['node_map'] = tuple(sorted((k, v.__name__) for k, v in pp.Parser.node_map.items()))
+    # interpreter-wide state that parso touches on some path (warning filters around string decoding, the garbage collector around unpickling)
+    import warnings, gc
+    out['interpreter:warnings.filters'] = tuple((a, getattr(m, 'pattern', m), c.__name__, getattr(mo, 'pattern', mo), l) for a, m, c, mo, l in warnings.filters)
+    out['interpreter:gc.isenabled'] = gc.isenabled()
+    out['interpreter:recursionlimit'] = sys.getrecursionlimit()
+    out['interpreter:cwd'] = os.getcwd()
     return out
 
 
 def gen_tasks(r, n):
     vs = ['3.6', '3.8', '3.10', '3.12']
     tasks = []
+    # half of the runs are dominated by issue listing: its walks overlap in every order (A starts, B starts, A ends, B ends), which is what it takes
+    # to see state that a walk saves at its start and restores at its end
+    kinds = ['parse', 'parse', 'errors', 'tokenize'] if r.random() < 0.5 else ['errors', 'errors', 'errors', 'parse']
     for i in range(n):
         kind, text = gens.text_case(r.random(), 'c18-text', i, ['oneliner', 'valid', 'mutate', 'lines', 'semantic'])
-        tasks.append((r.choice(['parse', 'parse', 'errors', 'tokenize']), r.choice(vs), text[:160]))
+        tasks.append((r.choice(kinds), r.choice(vs), text[:160]))
+    if r.random() < 0.3:
+        # a walk that ends in an exception (the recursive visitor on deep nesting): what it set up must be undone all the same
+        tasks[r.randrange(n)] = ('errors', r.choice(vs), 'x = ' + '[' * 400 + '1' + ']' * 400 + '\n')
     return tasks
 
 
